@@ -123,8 +123,9 @@ def qha_specs(draw, tier):
             "dT": draw(st.sampled_from([10.0, 25.0, 50.0])), "pressure": draw(st.sampled_from([None, None, 0.5, 3.0, 7.0, 20.0, -2.0])),
             "el": draw(st.sampled_from(["zeros", "V", "TV"])), "t_max": draw(st.sampled_from([None, None, "inner"])),
             "tgrid": draw(st.sampled_from(["uniform", "uniform", "piecewise", "irregular"])),
-            "v0_range": draw(st.sampled_from(["inside", "inside", "above_at_high_T", "below_at_low_T"])),
-            "convex": draw(st.booleans()), "container": draw(st.sampled_from(["array", "list", "readonly"])), "twice": draw(st.booleans())}
+            "v0_range": draw(st.sampled_from(["inside", "inside", "above_at_high_T", "below_at_low_T", "far_below"])),
+            "convex": draw(st.booleans()), "container": draw(st.sampled_from(["array", "list", "readonly"])), "twice": draw(st.booleans()),
+            "call": draw(st.sampled_from(["keywords", "keywords", "positional"]))}
 
 
 def run_qha(spec):
@@ -149,6 +150,8 @@ def run_qha(spec):
         V0 = 60 * (1.10 + 0.085 * x)
     elif spec.get("v0_range") == "below_at_low_T":
         V0 = 60 * (0.862 + 0.06 * x)
+    elif spec.get("v0_range") == "far_below":
+        V0 = 60 * (0.74 + 0.02 * x)  # e.g. under a strong pressure term: 15 % below the smallest volume point
     B0 = 0.6 * (1 - rng.uniform(0.02, 0.3) * x)
     Bp = 4.5 + rng.uniform(-0.5, 0.5) * x
     E0 = -10 - rng.uniform(0.01, 0.5) * x ** 2
@@ -194,7 +197,12 @@ def run_qha(spec):
     results = []
     for rep in range(2 if spec["twice"] else 1):
         try:
-            q = PhonopyQHA(eos=spec["eos"], pressure=Pg, t_max=t_max, verbose=False, energy_plot_factor=spec.get("epf"), **inputs)
+            if spec.get("call") == "positional":
+                # the documented parameter order: volumes, electronic_energies, temperatures, free_energy, cv, entropy
+                q = PhonopyQHA(inputs["volumes"], inputs["electronic_energies"], inputs["temperatures"], inputs["free_energy"], inputs["cv"],
+                               inputs["entropy"], eos=spec["eos"], pressure=Pg, t_max=t_max, verbose=False, energy_plot_factor=spec.get("epf"))
+            else:
+                q = PhonopyQHA(eos=spec["eos"], pressure=Pg, t_max=t_max, verbose=False, energy_plot_factor=spec.get("epf"), **inputs)
         except RuntimeError as e:
             if "fitting to EOS" in str(e) or "Fitting to EOS" in str(e):
                 # scipy's least squares met a numerical warning on the way: documented refusal, never a wrong answer
@@ -274,7 +282,7 @@ def run_qha(spec):
             return Out(ok=False, msg="two consecutive analyses of the same input arrays differ")
     nontriv = nT >= 3 and (Pg is not None or spec["el"] == "TV")
     return Out(ok=True, nontrivial=nontriv, classes=[spec["eos"], "P:%s" % ("none" if Pg is None else "set"), "el:" + spec["el"],
-                                                     "tmax" if t_max else "notmax", "tgrid:" + spec.get("tgrid", "uniform"), "v0:" + spec.get("v0_range", "inside"), "nV:%d" % nV, "epf:%s" % spec.get("epf"), "volumes:" + vo, "convex" if spec["convex"] else "concave", spec["container"]],
+                                                     "tmax" if t_max else "notmax", "tgrid:" + spec.get("tgrid", "uniform"), "v0:" + spec.get("v0_range", "inside"), "call:" + spec.get("call", "keywords"), "nV:%d" % nV, "epf:%s" % spec.get("epf"), "volumes:" + vo, "convex" if spec["convex"] else "concave", spec["container"]],
                info={"err": float(max(errs.values()))})
 
 
